@@ -2,8 +2,9 @@
 // The oracle (harness/c05/oracle.hh, check_text) lives in the target: only parse_error / out_of_range may escape, the
 // reader stays inside its buffer (exactly sized heap copies under ASan), the entry points agree with each other, and
 // every input that the independent RFC 8259 reader recognises as a standard document inside the stated domain must be
-// read as that reader reads it, in both modes. Inputs with more than 500 opening brackets or an exponent of more than
-// three digits are outside the stated domain (the latter only make the scanner loop) and are skipped and counted.
+// read as that reader reads it, in both modes. Inputs with more than 500 opening brackets or an exponent above 999 (more
+// than three digits after its leading zeros; e0000000002 is the exponent 2 and is checked) are outside the stated domain
+// (the latter only make the scanner loop) and are skipped and counted.
 #include "fuzz_common.hh"
 
 #include "c05/oracle.hh"
